@@ -35,6 +35,10 @@ ArgPool == <<<<"null">>,
             <<"true">>,
             <<"10", "**", "6144">>,
             <<"0.5">>,
+            <<"\"z\\u00F3\\u0142w\"">>,
+            <<"\"\\u00F3\"">>,
+            <<"\"\\U01F600a\\U01F600\"">>,
+            <<"\"\\U01F600\"">>,
             <<"-", "5">>,
             <<"4294967297">>,
             <<"18446744073709551617">>,
@@ -65,9 +69,9 @@ ArgPool == <<<<"null">>,
             <<"function", "(", "x", ")", "x">>,
             <<"biglist">>,
             <<"bigtext">>>>
-QuickArgs == 12
+QuickArgs == 16
 Args1 == {ArgPool[i] : i \in 1..(IF Deep THEN Len(ArgPool) ELSE QuickArgs)}
-Args2 == {ArgPool[i] : i \in 1..(IF Deep THEN 16 ELSE 8)}
+Args2 == {ArgPool[i] : i \in (1..(IF Deep THEN 16 ELSE 8)) \cup {13, 14, 16}}
 Args3 == {ArgPool[i] : i \in 1..(IF Deep THEN 6 ELSE 4)}
 BifDocs == {<<f, "(", ")">> : f \in Bifs}
            \cup {<<f, "(">> \o a \o <<")">> : f \in Bifs, a \in Args1}
